@@ -62,6 +62,12 @@ type USafeMsgLeaf struct{ Msg, Safe string }
 func (e *USafeMsgLeaf) Error() string       { return e.Msg }
 func (e *USafeMsgLeaf) SafeMessage() string { return e.Safe }
 
+// USafeDetLeaf: unregistered leaf reporting a caller-supplied safe detail.
+type USafeDetLeaf struct{ Msg, Det string }
+
+func (e *USafeDetLeaf) Error() string         { return e.Msg }
+func (e *USafeDetLeaf) SafeDetails() []string { return []string{e.Det} }
+
 // UWrapU: prefix wrapper exposing only Unwrap.
 type UWrapU struct {
 	Pfx string
